@@ -97,9 +97,14 @@ def run(name, checks):
     if st:
         print('refusing: /repo has uncommitted changes to tracked files:\n' + st)
         return 2
+    used = 'patch.diff'
     ra = sh('git -C /repo apply %s' % os.path.join(dst, 'patch.diff'))
+    if ra.returncode != 0 and os.path.exists(os.path.join(dst, 'patch.rebased.diff')):
+        # later repairs of /repo rewrote the code this change edits: the same change re-made by hand (or by a three-way merge) on the current tree
+        used = 'patch.rebased.diff'
+        ra = sh('git -C /repo apply %s' % os.path.join(dst, used))
     if ra.returncode != 0:
-        print('patch does not apply: ' + ra.stdout)
+        print('%s: patch does not apply to the current /repo (base commit %s): %s' % (name, meta.get('base_commit'), ra.stdout.strip()[:200]))
         return 2
     results = {}
     # the evidence files must describe the unchanged tree: keep them aside while the patch is applied
@@ -122,7 +127,13 @@ def run(name, checks):
         for ep, text in saved.items():
             with open(ep, 'w') as f:
                 f.write(text)
-    meta.setdefault('check_results', {}).update(results)
+    if used != 'patch.diff':
+        for r in results.values():
+            r['patch'] = used
+        meta.setdefault('check_results_rebased', {}).update(results)
+        meta['rebased_onto'] = sh('git -C /repo rev-parse --short HEAD').stdout.strip()
+    else:
+        meta.setdefault('check_results', {}).update(results)
     meta['check_results_at'] = time.strftime('%Y-%m-%dT%H:%M:%SZ', time.gmtime())
     with open(meta_path, 'w') as f:
         json.dump(meta, f, indent=1)
